@@ -37,6 +37,7 @@ def workload(mod, tier, seed):
     the random parts of every generator (shapes, values, option draws, histories) are new in each pass, the exhaustive parts are
     re-run with new values.  Deterministic, so every shard sees the same stream."""
     npint = bool(getattr(mod, "NPINT_ARGS", False))
+    strided = bool(getattr(mod, "STRIDED_ARGS", False))
 
     def stream():
         yield from mod.gen_cases(tier, seed)
@@ -46,6 +47,8 @@ def workload(mod, tier, seed):
     for i, case in enumerate(stream()):
         if npint and (i + int(seed)) % 4 == 3:
             case["npint_args"] = True          # see core.Ctx.begin
+        if strided and (i + int(seed)) % 4 == 1:
+            case["strided_args"] = True
         yield case
 
 
